@@ -10,6 +10,12 @@ fold (spec_do) over the solutions of each rule's own body computed by the C01 `s
 Go's own facts of the body predicates. A second runner (`c02rw`) compares rewrite.Rewrite
 (names, arities, which rules are split) with the model's `rewrite`.
 
+Strengthened after seeding (notes/C02.md): (1) `conf_program` - key and collected columns mixing
+constants that print alike across types, contain the key encoding's separators, or have equal
+Constant.Hash() (same judge; floats / byte strings are opaque tagged pairs in the model);
+(2) `cyc_program` + runner `c02cyc` + Run.C02.judge_cyc - programs with an aggregation edge on a
+dependency cycle, run from text many times each, must be refused on every run.
+
 Program representation = checks/datalog_common.py plus, on a clause,
   "do": {"keys": [var, ...], "stmts": [["reduce", var, rname, [term, ...]] | ["apply", var, term]]}
   rname in count sum min max avg collect collect_distinct
@@ -750,6 +756,14 @@ def conf_program(rng):
                 stmts.append(["reduce", v, kind, args])
                 feats.add("conf-" + kind)
             hvars.append(v)
+        # a second rule for the previous head: the same key columns and the same statements over another body. A head
+        # is shared only then, and only when its discriminating column determines the group's rows (sum of distinct
+        # powers of two / the collected tags): two facts of the head come from the same rows (and are equal) or differ
+        # in that column
+        share = bool(prev) and prev[3][0][2] in ("sum", "collect") and prev[4] != shape and r.random() < 0.35
+        if share:
+            keys, stmts = copy.deepcopy(prev[2]), copy.deepcopy(prev[3])
+            hvars = [st[1] for st in stmts]
         used = set(keys)
         for st in stmts:
             for t in st[3]:
@@ -759,15 +773,14 @@ def conf_program(rng):
             for i, var_ in enumerate([va, vb, vt, vn]):
                 if var_ not in used and r.random() < 0.7:
                     a[i] = ["wild"]
-        sigk = (len(keys), tuple(st[2] for st in stmts))
-        if prev and prev[1] == sigk and r.random() < 0.4:
+        if share:
             head = prev[0]
             feats.add("conf-same-head")
         else:
             head = nextp
             nextp += 1
             layers.append([head])
-        prev = (head, sigk)
+        prev = (head, None, list(keys), stmts, shape)
         if len(keys) >= 1:
             feats.add("conf-keyed")
         clauses.append(agg(head, [V(k) for k in keys] + [V(h) for h in hvars], body, list(keys), stmts))
@@ -1342,13 +1355,20 @@ def run(ck):
     return ck.finish(cov, assumptions=[
         "model hand-written (coq/Datalog/Rewrite.v, Transform.v on top of the C01 model); tied to rewrite/rewrite.go, "
         "engine/transformer.go, seminaivebottomup.go:617-659, functional.EvalReduceFn by differential evaluation only",
-        "group keys compared as constant tuples; Go compares their printed form (injective printing is C08/C09's statement)",
+        "group keys compared as constant tuples; Go compares a printed key string (groupKeyString) - the confusable-constant "
+        "stream feeds key columns whose values print alike across types or contain the encoding's separators",
+        "float64 and byte-string constants pass through the model as opaque tagged pairs (equality only: keys, collected "
+        "values); no generated rule does arithmetic on them",
+        "agg-cycle stream: verdict premise agg_in_cycle is evaluated in Coq (Props/C02.v agg_cycle_not_stratifiable); 'refused' "
+        "is read off AnalyzeOneUnit / EvalProgram errors; the number of rounds bounds what a map-order dependent acceptance "
+        "can hide (40 rounds per program quick, 100 thorough)",
         "reducers modelled: count sum min max avg collect collect_distinct over names, strings, int64, pairs, lists; "
         "collect lists compared as multisets; float/duration/time reducers, collect_to_map, pick_any are not modelled",
         "avg: exact integer sum and correctly rounded quotient; Go's float accumulation is order dependent beyond 2^53 "
         "(known N10) - the generator keeps avg away from such values",
         "main stream avoids by construction: > 3 aggregating rules per head / > 1 aggregated head per stratum (F2b needs 11 "
-        "rewritten rules), rules of the aggregated head's stratum that read it (F2d), maps (N9), hash-equal facts (F8)",
+        "rewritten rules), rules of the aggregated head's stratum that read it (F2d), maps (N9), hash-equal facts (F8; "
+        "hash-equal VALUES inside one key / collected column are generated on purpose, every fact stays hash-distinct)",
         "a single-atom body counts one row per matching fact (wildcard columns included), a multi-premise body one row per "
         "binding of its named variables - this asymmetry of the Go code is part of the model and of the observer"])
 
@@ -1407,7 +1427,13 @@ META = {
             "scheme (F2b) are refuted by witnesses. Tied to the Go code on every run by evaluating generated programs with "
             "1-3 aggregating rules per head (single/multi-atom bodies, same head twice, aggregation over recursive strata, "
             "two aggregation levels) on the fact-store kinds and judging Go's facts both against the model and with an "
-            "independent fold over each rule's body solutions computed from Go's own facts.",
+            "independent fold over each rule's body solutions computed from Go's own facts. The same judge runs on programs "
+            "whose key and collected columns mix constants that print alike across types (7, \"7\", b\"7\", 7.0; /a, \"/a\"), "
+            "contain the separators of the key encoding, or have equal Constant.Hash() (0, 0.0, [], fn:pair(0,0), "
+            "fn:pair(0,2^32); tuples (0,0)/(0,2^32)), with all facts hash-distinct. 'Over the completed fixpoint of everything "
+            "the body depends on': theorem agg_cycle_not_stratifiable (no level assignment exists when an aggregation edge "
+            "lies on a dependency cycle); generated programs with such a cycle are run from text 40/100 times each and must "
+            "be refused every time.",
     "note": "Trusted: Coq kernel + vm_compute; hand-written model tied to the Go code by differential evaluation (sampled; "
             "exhaustive over a two-rule schema in the thorough tier). Printed-key grouping is modelled as tuple equality. "
             "collect_to_map, float/time/duration reducers, temporal heads are outside. Known: F2b (name collisions from 11 "
